@@ -328,6 +328,11 @@ def real_configs(rounds, rng):
         dict(api='prefetch', n=6, buf=2, w=2, fn_fail=[2, 5], fail_kind='filter', cfe=1, stop='exhaust', stop_k=0),
     ]
     out = []
+    for b in BACKENDS:          # an EMPTY dataset through every back end
+        out.append(dict(api='prefetch', n=0, buf=2, w=2, fn_fail=[], fail_kind='filter', cfe=0,
+                        stop='exhaust', stop_k=0, backend=b, delays=[0.0, 0.0, 0.0]))
+        out.append(dict(api='parmap', n=0, buf=2, w=2, fn_fail=[], fail_kind='filter', cfe=0,
+                        stop='exhaust', stop_k=0, backend=b, delays=[0.0, 0.0, 0.0]))
     for r in range(rounds):
         for b in BACKENDS:
             for c in base:
